@@ -81,7 +81,8 @@ type NotiJ struct {
 }
 
 // Op kinds: upd reset remove add sync connect connecterror updatemeta
-// updatesize sub subwalk.  Sizes is filled in by the runner (updatesize).
+// updatesize sub subp unsub gate ungate subwalk.  Sizes is filled in by the runner (updatesize).
+// gate / ungate: every subscriber's Send blocks / is released (backlogs).
 // subwalk: a STREAM subscriber WITH the initial walk; when Rm is set,
 // Cache.Remove(Rm) runs at the hook point process:before-walk of that RPC.
 type Op struct {
@@ -91,6 +92,8 @@ type Op struct {
 	Tgt   string           `json:"tgt,omitempty"`
 	Msg   string           `json:"msg,omitempty"`
 	Rm    string           `json:"rm,omitempty"` // subwalk: target removed between registration and walk
+	SP    []string         `json:"sp,omitempty"` // subp: subscription path below the target
+	Idx   int              `json:"idx,omitempty"` // unsub: which subscriber disconnects
 	N     *NotiJ           `json:"n,omitempty"`
 	Sizes map[string]int64 `json:"sizes,omitempty"`
 }
@@ -334,7 +337,24 @@ func (s *memStream) Recv() (*pb.SubscribeRequest, error) {
 	return r, nil
 }
 
+// sendGate, when non-nil, blocks every Send until it is closed.
+var sendGate chan struct{}
+var sendGateMu sync.Mutex
+
+func currentGate() chan struct{} {
+	sendGateMu.Lock()
+	defer sendGateMu.Unlock()
+	return sendGate
+}
+
 func (s *memStream) Send(r *pb.SubscribeResponse) error {
+	if g := currentGate(); g != nil {
+		select {
+		case <-g:
+		case <-s.ctx.Done():
+			return s.ctx.Err()
+		}
+	}
 	var o RespJ
 	switch v := r.GetResponse().(type) {
 	case *pb.SubscribeResponse_SyncResponse:
@@ -379,6 +399,8 @@ func (s *memStream) stat() string {
 		return "ok"
 	case status.Code(s.err) == codes.NotFound:
 		return "notfound"
+	case s.err == context.Canceled || status.Code(s.err) == codes.Canceled:
+		return "canceled"
 	}
 	return "err"
 }
@@ -391,6 +413,7 @@ type gstate struct {
 	server        int
 	blocked       int
 	parkedSenders int
+	gatedSenders  int // blocked in memStream.Send behind the gate
 }
 
 var stackBuf = make([]byte, 4<<20)
@@ -418,6 +441,9 @@ func goroutineStates() gstate {
 		}
 		if sel && bytes.Contains(body, []byte("coalesce.(*Queue).Next(")) {
 			g.parkedSenders++
+		}
+		if sel && bytes.Contains(body, []byte("(*memStream).Send(")) {
+			g.gatedSenders++
 		}
 	}
 	return g
@@ -456,7 +482,7 @@ func (r *runner) settle() bool {
 			if g.server == 0 {
 				return true
 			}
-		} else if g.server == g.blocked && g.parkedSenders == live {
+		} else if g.server == g.blocked && g.parkedSenders+g.gatedSenders == live {
 			if r.live() == live {
 				return true
 			}
@@ -468,7 +494,7 @@ func (r *runner) settle() bool {
 	}
 }
 
-func (r *runner) attach(target string, updatesOnly bool) {
+func (r *runner) attach(target string, updatesOnly bool, sp ...string) {
 	ctx := peer.NewContext(context.Background(), &peer.Peer{Addr: &net.TCPAddr{IP: net.IPv4(127, 0, 0, 1), Port: 1 + len(r.subs)}})
 	ctx, cancel := context.WithCancel(ctx)
 	st := &memStream{ctx: ctx, cancel: cancel, reqs: make(chan *pb.SubscribeRequest, 2), done: make(chan struct{})}
@@ -476,7 +502,7 @@ func (r *runner) attach(target string, updatesOnly bool) {
 		Prefix:       &pb.Path{Target: target},
 		Mode:         pb.SubscriptionList_STREAM,
 		UpdatesOnly:  updatesOnly,
-		Subscription: []*pb.Subscription{{Path: &pb.Path{}}},
+		Subscription: []*pb.Subscription{{Path: mkPath(&PathJ{Elems: elems(sp...)})}},
 	}}}
 	r.subs = append(r.subs, st)
 	go func() {
@@ -491,6 +517,7 @@ func (r *runner) attach(target string, updatesOnly bool) {
 }
 
 func (r *runner) finish() {
+	r.openGate()
 	for _, s := range r.subs {
 		s.cancel()
 	}
@@ -504,6 +531,15 @@ func (r *runner) finish() {
 	for i := 0; goroutineStates().server != 0 && time.Since(t0) < watchdog; i++ {
 		pause(i)
 	}
+}
+
+func (r *runner) openGate() {
+	sendGateMu.Lock()
+	if sendGate != nil {
+		close(sendGate)
+		sendGate = nil
+	}
+	sendGateMu.Unlock()
 }
 
 // ---------------------------------------------------------------------------
@@ -647,6 +683,20 @@ func (r *runner) apply(o *Op) (res ObsJ) {
 			r.c.UpdateSize()
 		case "sub":
 			r.attach(o.Tgt, true)
+		case "subp":
+			r.attach(o.Tgt, true, o.SP...)
+		case "unsub":
+			if o.Idx < len(r.subs) {
+				r.subs[o.Idx].cancel()
+			}
+		case "gate":
+			sendGateMu.Lock()
+			if sendGate == nil {
+				sendGate = make(chan struct{})
+			}
+			sendGateMu.Unlock()
+		case "ungate":
+			r.openGate()
 		case "subwalk":
 			if o.Rm != "" {
 				rm := o.Rm
@@ -909,6 +959,14 @@ func (t *termer) op(o *Op, names []string) string {
 		return "MUpdateSize " + vh.List(el)
 	case "sub":
 		return "MSub " + t.str(o.Tgt)
+	case "subp":
+		return fmt.Sprintf("MSubP %s %s", t.str(o.Tgt), t.n.Path(o.SP))
+	case "unsub":
+		return fmt.Sprintf("MUnsub %d%%nat", o.Idx)
+	case "gate":
+		return "MGate"
+	case "ungate":
+		return "MUngate"
 	case "subwalk":
 		rm := "None"
 		if o.Rm != "" {
@@ -996,7 +1054,7 @@ func (t *termer) subs(l []SubObsJ) string {
 				rs[j] = "SUpd " + t.noti(r.N)
 			}
 		}
-		st := map[string]string{"running": "SRunning", "ok": "SEndedOk", "notfound": "SNotFound"}[l[i].Stat]
+		st := map[string]string{"running": "SRunning", "ok": "SEndedOk", "notfound": "SNotFound", "canceled": "SCanceled"}[l[i].Stat]
 		if st == "" {
 			st = "SEndedErr"
 		}
